@@ -93,6 +93,18 @@ CHECKS = {
             "is the direct argument of tokio::time::timeout; retry streams derive from take(n>0); timeouts are positive; arithmetic on "
             "configuration values cannot overflow. All 29 await points, both budgets, every Overflow site with config operands.",
             "Wall-clock values and tokio's timer are trusted; 'finite' not 'how long'. " + TB),
+    "C02": ("proof", "5.2",
+            "site enumeration over the decode-path call-graph closure + guard-fact/interval/contract discharge of every panic, overflow, truncation, allocation site; loop termination classification",
+            "Every site that can panic, wrap, truncate or allocate on the decode path (246 bodies: all decoders, length styles, framing, 55 "
+            "generated decoders, 17 parsers, read_packet) is an obligation discharged from edge-dominating guards, std summaries, interval "
+            "arithmetic, suffix contracts K1-K3 (verified on every impl) and two loop lemmas; every loop has a termination argument. For all "
+            "inputs at once; found the Tlv 0x82, BCD overflow, date/time and untagged-Vec defects (now fixed).",
+            "Sound but incomplete prover: anything not understood stays undischarged. Totality of std/chrono/hex/yore callees is trusted. " + TB),
+    "C14": ("other", "5.14",
+            "expression-equality rules on the framing code, suffix-contract verification on every decoder impl, unsafe-site facts, layout nesting rule",
+            "The value decoder sees exactly &payload[..length]; the remainder is exactly &payload[length - r.len()..]; every decoder returns "
+            "a suffix of its input and no unsafe code exists in the library crates; no greedy row precedes another row.",
+            "Non-interference of the bytes beyond the announced length follows from Rust's slice semantics once these hold. " + TB),
 }
 
 NOT_YET = "check not yet built in this commit (under construction, see DESIGN.md section 10)"
